@@ -1,6 +1,6 @@
-(** C08 — all move-generation modes describe the same move set: MovegenImpl transcribes GeneratePseudoLegalMoves, GetNextMove / fillOnDemandMoveList (stages, PV move, killers, sort oracle), the evasion-target filter and HasLegalMove. *)
+(** C08 — all move-generation modes describe the same move set: MovegenImpl transcribes GeneratePseudoLegalMoves, GetNextMove / fillOnDemandMoveList (stages, PV move, killers, the engine's sort values), the evasion-target filter and HasLegalMove. *)
 From Coq Require Import NArith ZArith List Bool Permutation.
-From FG Require Import Geom Rules FenSpec BitView AttacksImpl MoveEnc MovegenImpl MovegenSpec MovegenProofsMain MovegenMakeLegal MovegenProofsLegal MovegenProofsOD MovegenProofsODChess MovegenProofsEvasion MovegenExamples.
+From FG Require Import Geom Rules FenSpec BitView AttacksImpl MoveEnc MovegenImpl MovegenSpec MovegenProofsMain MovegenMakeLegal MovegenProofsLegal MovegenProofsOD MovegenProofsODChess MovegenProofsEvasion MovegenProofsEvasionComplete MovegenProofsODEvasion MovegenProofsHasLegal MovegenExamples.
 Import ListNotations.
 
 Theorem C08_gen_pseudo_modes :
@@ -123,6 +123,44 @@ Theorem C08_od_chess_noevasion :
             NoDup out).
 Proof. exact od_chess_noevasion. Qed.
 
+Theorem C08_od_chess_evasion :
+  forall (prom_nq : bool) (p : pos),
+         legal_pos p = true ->
+         forall (key : N) (srt : odstate -> list N -> list N),
+         (forall (st : odstate) (l : list N), Permutation (srt st l) l) ->
+         forall (mode : N) (st : odstate),
+         od_start_ok (chess_env prom_nq (view_of_spec p) key srt) st ->
+         exists (le l : list N) (st' : odstate) (out : list N),
+           gen_pseudo prom_nq (view_of_spec p) mode true = Some le /\
+           gen_pseudo prom_nq (view_of_spec p) mode false = Some l /\
+           od_drain (S (length out)) (chess_env prom_nq (view_of_spec p) key srt) mode true st =
+           Some (st', out) /\
+           (forall x : N,
+            In x out ->
+            pv_sel (chess_env prom_nq (view_of_spec p) key srt) mode (od_pv st) = true /\ x = od_pv st \/
+            In x l) /\
+           (forall x : N, In x le -> In x out) /\
+           (pv_sel (chess_env prom_nq (view_of_spec p) key srt) mode (od_pv st) = true -> hd 0 out = od_pv st) /\
+           ((pv_sel (chess_env prom_nq (view_of_spec p) key srt) mode (od_pv st) = true -> In (od_pv st) le) ->
+            NoDup out).
+Proof. exact od_chess_evasion. Qed.
+
+Theorem C08_od_chess_evasion_legal :
+  forall (prom_nq : bool) (p : pos),
+         legal_pos p = true ->
+         forall (key : N) (srt : odstate -> list N -> list N),
+         (forall (st : odstate) (l : list N), Permutation (srt st l) l) ->
+         forall (legal0 : N -> bool) (st : odstate),
+         od_start_ok (chess_env prom_nq (view_of_spec p) key srt) st ->
+         in_check p = true ->
+         (forall m : mv, In m (pseudo p) -> legal0 (code m) = is_legal p m) ->
+         (pv_sel (chess_env prom_nq (view_of_spec p) key srt) 3 (od_pv st) = true ->
+          exists le : list N, gen_pseudo prom_nq (view_of_spec p) 3 true = Some le /\ In (od_pv st) le) ->
+         exists (st' : odstate) (out : list N),
+           od_drain (S (length out)) (chess_env prom_nq (view_of_spec p) key srt) 3 true st = Some (st', out) /\
+           NoDup out /\ Permutation (filter legal0 out) (map code (legal p)).
+Proof. exact od_chess_evasion_legal. Qed.
+
 Theorem C08_evasion_targets_some :
   forall p : pos, legal_pos p = true -> evasion_targets (view_of_spec p) = Some (evasion_targets_spec p).
 Proof. exact evasion_targets_some. Qed.
@@ -151,6 +189,80 @@ Theorem C08_evasion_nodup :
          forall (mode : N) (le : list N), gen_pseudo prom_nq (view_of_spec p) mode true = Some le -> NoDup le.
 Proof. exact evasion_nodup. Qed.
 
+Theorem C08_legal_in_check_kept :
+  forall p : pos,
+         legal_pos p = true ->
+         in_check p = true -> forall m : mv, In m (pseudo p) -> is_legal p m = true -> ev_keep_m p m = true.
+Proof. exact legal_in_check_kept. Qed.
+
+Theorem C08_evasion_complete :
+  forall (prom_nq : bool) (p : pos) (legal0 : N -> bool),
+         legal_pos p = true ->
+         in_check p = true ->
+         (forall m : mv, In m (pseudo p) -> legal0 (code m) = is_legal p m) ->
+         exists le l : list N,
+           gen_pseudo prom_nq (view_of_spec p) 3 true = Some le /\
+           gen_pseudo prom_nq (view_of_spec p) 3 false = Some l /\
+           filter legal0 le = filter legal0 l /\ Permutation (filter legal0 le) (map code (legal p)).
+Proof. exact evasion_complete. Qed.
+
+Theorem C08_evasion_complete_engine :
+  forall (prom_nq : bool) (p : pos),
+         legal_pos p = true ->
+         in_check p = true ->
+         exists le l : list N,
+           gen_pseudo prom_nq (view_of_spec p) 3 true = Some le /\
+           gen_pseudo prom_nq (view_of_spec p) 3 false = Some l /\
+           filter (eng_legal p) le = filter (eng_legal p) l /\
+           Permutation (filter (eng_legal p) le) (map code (legal p)).
+Proof. exact evasion_complete_engine. Qed.
+
+Theorem C08_has_legal_candidates :
+  forall p : pos,
+         legal_pos p = true ->
+         forall lg : N -> bool, has_legal_move_impl (view_of_spec p) lg = Some (existsb lg (hl_cands p)).
+Proof. exact has_legal_candidates. Qed.
+
+Theorem C08_has_legal_move_exact :
+  bool ->
+         forall p : pos,
+         legal_pos p = true ->
+         has_legal_move_impl (view_of_spec p) (spec_legal_code p) =
+         Some (negb match legal p with
+                    | [] => true
+                    | _ :: _ => false
+                    end).
+Proof. exact has_legal_move_exact. Qed.
+
+Theorem C08_normal_probe_legal :
+  forall p : pos,
+         legal_pos p = true ->
+         forall s t pr : N,
+         s < 64 ->
+         t < 64 ->
+         at_ (brd p) s = mk_piece (stm p) PAWN ->
+         at_ (brd p) t = 0 \/ at_ (brd p) t <> 0 /\ colour_of (at_ (brd p) t) <> stm p ->
+         prom_piece pr ->
+         is_legal p {| mfrom := s; mto := t; mtype := NORMAL; mprom := 3 |} =
+         is_legal p {| mfrom := s; mto := t; mtype := PROMOTION; mprom := pr |}.
+Proof. exact normal_probe_legal. Qed.
+
+Theorem C08_castle_implies_king_step :
+  forall p : pos,
+         legal_pos p = true ->
+         forall m : mv,
+         In m (pseudo p) ->
+         mtype m = CASTLING ->
+         is_legal p m = true ->
+         exists kf tr : N,
+           kf < 64 /\
+           at_ (brd p) kf = mk_piece (stm p) KING /\
+           In tr (king_targets kf) /\
+           free_or_enemy (brd p) (stm p) tr = true /\
+           In {| mfrom := kf; mto := tr; mtype := NORMAL; mprom := 3 |} (pseudo p) /\
+           is_legal p {| mfrom := kf; mto := tr; mtype := NORMAL; mprom := 3 |} = true.
+Proof. exact castle_implies_king_step. Qed.
+
 Theorem C08_go_sort_perm :
   forall (val : N -> Z) (l : list N), Permutation (go_sort val l) l.
 Proof. exact go_sort_perm. Qed.
@@ -163,10 +275,12 @@ Print Assumptions C08_gen_pseudo_modes.
 Print Assumptions C08_modes_partition.
 Print Assumptions C08_mode_lists_spec.
 Print Assumptions C08_od_sequence.
-Print Assumptions C08_od_sequence_noevasion.
-Print Assumptions C08_od_sequence_evasion.
-Print Assumptions C08_od_batch_chess.
 Print Assumptions C08_od_chess_noevasion.
+Print Assumptions C08_od_chess_evasion.
+Print Assumptions C08_od_chess_evasion_legal.
 Print Assumptions C08_gen_pseudo_evasion_filter.
 Print Assumptions C08_evasion_sound.
 Print Assumptions C08_evasion_nodup.
+Print Assumptions C08_evasion_complete.
+Print Assumptions C08_evasion_complete_engine.
+Print Assumptions C08_has_legal_move_exact.
